@@ -235,7 +235,7 @@ def cases(tier, seed):
         else:
             h = g_hist(rng, dim=rng.choice([1, 1, 2, 2]),
                        ckind=rng.choice(["ints", "floats", "mixed", "posints"]))
-            yield {"k": k, "hist": h, "sep": rng.choice([",", ",", ";", "\t", " ", " | "]),
+            yield {"k": k, "hist": h, "sep": rng.choice([",", ",", ";", "\t", " ", " | ", "{{", "}", " {0} ", "{}", "%s", "\\"]),
                    "header": rng.choice([None, None, "x,y", "# header"]),
                    "dup": rng.choice([True, False]),
                    "ctxdup": rng.choice([None, None, True, False]),
@@ -1016,3 +1016,4 @@ RULE += (' A third of the graphs use one list object for two fields; one ToCSV e
 RULE += (' Added: make_value functions that raise StopIteration for one cell (hist_to_graph must '
          'fail, not return fewer points); a ToCSV run abandoned (closed / dropped / failed '
          'consumer) right after a value with a context option, followed by a new run of the element.')
+RULE += (' Added: csv separators made of braces, format directives and a backslash.')
